@@ -34,6 +34,9 @@ TEMPLATES = {
     "droplic": ("droplic.jinja2", "{% for copyright_line in copyright_lines %}\n{{ copyright_line }}\n{% endfor %}\nLicensed somehow.\n"),
     "dropcop": ("dropcop.jinja2", "{% for expression in spdx_expressions %}\nSPDX-License-Identifier: {{ expression }}\n{% endfor %}\n"),
     "dropboth": ("dropboth.jinja2", "Nothing to see here.\n"),
+    # ignores what it is given and states a fixed notice + licence: right for a file without information and the matching request
+    # ('Jane Doe', 2020, MIT), information-dropping for a file that already declares something else
+    "fixedonly": ("fixedonly.jinja2", "SPDX-FileCopyrightText: 2020 Jane Doe\n\nSPDX-License-Identifier: MIT\n"),
     # the same, pre-commented
     "cdroplic": ("cdroplic.commented.jinja2", "{% for copyright_line in copyright_lines %}\n# {{ copyright_line }}\n{% endfor %}\n# Licensed somehow.\n"),
     "cdropcop": ("cdropcop.commented.jinja2", "{% for expression in spdx_expressions %}\n# SPDX-License-Identifier: {{ expression }}\n{% endfor %}\n"),
